@@ -1,6 +1,6 @@
 // E2 harness for C01 / C02: generated task programs on the live runtime, exact event log.
 // usage: e2_sched <seed> <perturb_per_1024> <prog> <size> [pika options...]
-//   prog: fanout | pingpong | mixed
+//   prog: fanout | pingpong | mixed | zoo | meet     extra option: --verif:nosteal
 // Prints: log lines, then `monitor <text>` lines (observable violations), then `end ok|hang`.
 #include "../e2_log.hpp"
 
@@ -14,9 +14,13 @@
 #include <pika/runtime/runtime.hpp>
 #include <pika/semaphore.hpp>
 #include <pika/thread.hpp>
+#include <pika/threading_base/register_thread.hpp>
+#include <pika/threading_base/thread_init_data.hpp>
 
+#include <algorithm>
 #include <atomic>
 #include <chrono>
+#include <cstring>
 #include <memory>
 #include <mutex>
 #include <string>
@@ -223,6 +227,221 @@ static void spawn(std::uint64_t seed, int depth, int maxdepth, int width)
     }
 }
 
+
+// ------------------------------------------------------------------------------------------------
+// Follow-up C01b: programs "zoo" (scenario diversity) and "meet" (more blocked tasks than the
+// queue's soft limit).  Every logical task still runs under a body_guard, so the per-task monitors
+// (entered once, one runner at a time, finished) and the model's body layer apply unchanged.
+
+static pika::execution::thread_stacksize const zoo_stacks[] = {pika::execution::thread_stacksize::small_,
+    pika::execution::thread_stacksize::medium, pika::execution::thread_stacksize::large,
+    pika::execution::thread_stacksize::huge, pika::execution::thread_stacksize::nostack};
+static pika::execution::thread_priority const zoo_prios[] = {pika::execution::thread_priority::normal,
+    pika::execution::thread_priority::low, pika::execution::thread_priority::high,
+    pika::execution::thread_priority::high_recursive, pika::execution::thread_priority::boost};
+static int g_workers = 1;
+static bool g_no_join = false;    // thread::join on the shared-priority scheduler is a listed C13 finding: not used there
+
+// a leaf task: optional yields, then an optional release of the semaphore its creator waits on
+static void zoo_leaf(long id, std::uint64_t seed, bool may_yield, std::shared_ptr<pika::counting_semaphore<>> done)
+{
+    rng r{seed};
+    body_guard g(id);
+    int yields = may_yield ? int(r.below(3)) : 0;
+    for (int i = 0; i < yields; ++i)
+    {
+        g.pause();
+        pika::this_thread::yield();
+        g.resume_();
+    }
+    if (done) done->release();
+}
+
+// create one leaf through one of the creation paths; returns false if the path needs a pika thread
+static void zoo_create(rng& r, int how, pika::execution::thread_stacksize ss, pika::execution::thread_priority pr,
+    std::shared_ptr<pika::counting_semaphore<>> done)
+{
+    long id = new_task_id();
+    std::uint64_t cs = r.next();
+    bool nostack = ss == pika::execution::thread_stacksize::nostack;
+    auto s = ex::with_stacksize(ex::with_priority(ex::thread_pool_scheduler{}, pr), ss);
+    switch (how)
+    {
+    case 0:    // scheduled sender
+        ex::start_detached(ex::schedule(s) | ex::then([=] { zoo_leaf(id, cs, !nostack, done); }));
+        break;
+    case 1:    // executed callable
+        ex::execute(s, [=] { zoo_leaf(id, cs, !nostack, done); });
+        break;
+    case 2:    // scheduled sender with a worker hint
+        s = ex::with_hint(s, pika::execution::thread_schedule_hint(std::int16_t(r.below(std::uint32_t(g_workers)))));
+        ex::start_detached(ex::schedule(s) | ex::then([=] { zoo_leaf(id, cs, !nostack, done); }));
+        break;
+    case 3:    // register_work with run_now: the thread object is created at once (not staged)
+    case 4:    // register_work, staged, with a worker hint
+    {
+        pika::execution::thread_schedule_hint hint;
+        if (how == 4) hint = pika::execution::thread_schedule_hint(std::int16_t(r.below(std::uint32_t(g_workers))));
+        pika::threads::detail::thread_init_data data(
+            pika::threads::detail::make_thread_function_nullary([=] { zoo_leaf(id, cs, !nostack, done); }),
+            "e2 zoo", pr, hint, ss, pika::threads::detail::thread_schedule_state::pending, how == 3);
+        pika::threads::detail::register_work(data);
+        break;
+    }
+    default:    // pika::thread (detached); always a stackful default-size thread
+    {
+        pika::thread t([=] { zoo_leaf(id, cs, true, done); });
+        t.detach();
+        break;
+    }
+    }
+}
+
+// a root task of the zoo: runs several scenarios in sequence, each blocking through a real primitive
+static void zoo_root(long id, std::uint64_t seed, int rounds)
+{
+    rng r{seed};
+    body_guard g(id);
+    for (int round = 0; round < rounds; ++round)
+    {
+        int scen = int(r.below(6));
+        if (scen == 0)
+        {
+            // recycling wave: one child per stack class after the other, each awaited before the next is
+            // created, so that terminated objects (and their stacks) of every class get reused
+            for (auto ss : zoo_stacks)
+            {
+                auto done = std::make_shared<pika::counting_semaphore<>>(0);
+                zoo_create(r, int(r.below(5)), ss, zoo_prios[r.below(5)], done);
+                g.pause();
+                done->acquire();
+                g.resume_();
+            }
+        }
+        else if (scen == 1)
+        {
+            // burst: nested creation under load through every creation path, then wait for all
+            int n = 4 + int(r.below(8));
+            auto done = std::make_shared<pika::counting_semaphore<>>(0);
+            for (int i = 0; i < n; ++i) zoo_create(r, int(r.below(6)), zoo_stacks[r.below(5)], zoo_prios[r.below(5)], done);
+            g.pause();
+            for (int i = 0; i < n; ++i) done->acquire();
+            g.resume_();
+        }
+        else if (scen == 2)
+        {
+            // mutex + condition variable hand-shake (both can suspend: contended lock, wait)
+            auto mtx = std::make_shared<pika::mutex>();
+            auto cv = std::make_shared<pika::condition_variable>();
+            auto flag = std::make_shared<bool>(false);
+            long cid = new_task_id();
+            std::uint64_t cs = r.next();
+            ex::execute(ex::with_priority(ex::thread_pool_scheduler{}, zoo_prios[r.below(5)]), [=] {
+                rng r2{cs};
+                body_guard cg(cid);
+                if (r2.below(2))
+                {
+                    cg.pause();
+                    pika::this_thread::yield();
+                    cg.resume_();
+                }
+                cg.pause();
+                {
+                    std::unique_lock<pika::mutex> l(*mtx);
+                    *flag = true;
+                    cv->notify_one();
+                }
+                cg.resume_();
+            });
+            g.pause();
+            {
+                std::unique_lock<pika::mutex> l(*mtx);
+                cv->wait(l, [&] { return *flag; });
+            }
+            g.resume_();
+        }
+        else if (scen == 3)
+        {
+            // latch: children count down, the parent waits
+            int n = 2 + int(r.below(4));
+            auto l = std::make_shared<pika::latch>(n + 1);
+            for (int i = 0; i < n; ++i)
+            {
+                long cid = new_task_id();
+                auto s = ex::with_stacksize(ex::thread_pool_scheduler{}, zoo_stacks[r.below(4)]);
+                ex::start_detached(ex::schedule(s) | ex::then([=] {
+                    body_guard cg(cid);
+                    l->count_down(1);
+                }));
+            }
+            g.pause();
+            l->arrive_and_wait();
+            g.resume_();
+        }
+        else if (scen == 4)
+        {
+            // joined pika::thread: join suspends the parent until the exit callback wakes it
+            long cid = new_task_id();
+            std::uint64_t cs = r.next();
+            if (g_no_join)
+            {
+                auto done = std::make_shared<pika::counting_semaphore<>>(0);
+                pika::thread t([=] { zoo_leaf(cid, cs, true, done); });
+                t.detach();
+                g.pause();
+                done->acquire();
+                g.resume_();
+            }
+            else
+            {
+                pika::thread t([=] { zoo_leaf(cid, cs, true, nullptr); });
+                g.pause();
+                t.join();
+                g.resume_();
+            }
+        }
+        else
+        {
+            // boosted spin-wait released by the external flag setter
+            auto flag = std::make_shared<std::atomic<bool>>(false);
+            {
+                std::lock_guard<std::mutex> l(g_flag_mtx);
+                g_flags.push_back(flag);
+            }
+            g.pause();
+            pika::util::yield_while([&] { return !flag->load(); }, "e2 zoo spin");
+            g.resume_();
+        }
+    }
+}
+
+// "meet": n tasks count themselves in and block on one latch of size n.  With n above
+// thread_queue's max_thread_count (1000) per queue all earlier tasks are suspended when the limit is
+// reached, so the remaining staged tasks can only be converted through the "desperate" branch of
+// add_new_always (empty work queue).
+static std::atomic<long> g_meet_in{0};
+static void meet_task(long id, std::shared_ptr<pika::latch> l)
+{
+    body_guard g(id);
+    g_meet_in.fetch_add(1);
+    g.pause();
+    l->arrive_and_wait();
+    g.resume_();
+}
+
+// scheduling-loop iterations per worker (site el.top, counted and dropped): lets the hang probe of
+// "meet" require that every worker went round its loop many times while nothing changed
+static std::atomic<long> g_loop_iter[64];
+static bool meet_drop(char const* site, void const*, std::uint64_t a, std::uint64_t)
+{
+    if (site[0] == 'e' && site[1] == 'l')
+    {
+        if (a < 64) g_loop_iter[a].fetch_add(1, std::memory_order_relaxed);
+        return true;
+    }
+    return false;
+}
+
 int main(int argc, char** argv)
 {
     if (argc < 5) return 2;
@@ -231,23 +450,76 @@ int main(int argc, char** argv)
     std::string prog = argv[3];
     int size = std::atoi(argv[4]);
     g_tasks = new std::vector<tinfo>(200000);
+    // coroutine layer sites co.enter / co.yield / co.resume / co.return (model `schedco`; the base
+    // model `sched` skips them)
+    e2::g_wanted_extra = +[](char const* s) { return s[0] == 'c' && s[1] == 'o' && s[2] == '.'; };
+    bool const meet = prog == "meet";
+    if (meet)
+    {
+        // also take el.top (top of the scheduling loop): counted per worker and dropped by meet_drop
+        e2::g_wanted_extra = +[](char const* s) {
+            return (s[0] == 'c' && s[1] == 'o' && s[2] == '.') || std::strcmp(s, "el.top") == 0;
+        };
+        e2::g_drop = &meet_drop;
+    }
     e2::install(seed, perturb);
 
     std::vector<char const*> av{argv[0]};
-    for (int i = 5; i < argc; ++i) av.push_back(argv[i]);
+    bool nosteal = false;
+    for (int i = 5; i < argc; ++i)
+    {
+        if (std::strcmp(argv[i], "--verif:nosteal") == 0) nosteal = true;    // stealing off via the scheduler mode
+        else av.push_back(argv[i]);
+        if (std::strcmp(argv[i], "--pika:scheduler=shared-priority") == 0) g_no_join = true;
+        if (std::strncmp(argv[i], "--pika:threads=", 15) == 0) g_workers = std::max(1, std::atoi(argv[i] + 15));
+    }
     pika::start(nullptr, int(av.size()), av.data());
+    if (nosteal)
+    {
+        pika::detail::get_runtime().get_thread_manager().remove_scheduler_mode(
+            pika::threads::scheduler_mode::enable_stealing);
+    }
 
     std::thread setter(flag_setter);
     rng r{seed * 7919 + 13};
-    int roots = prog == "pingpong" ? size : 1 + size / 4;
+    int roots = (prog == "pingpong" || prog == "zoo") ? size : 1 + size / 4;
     int maxdepth = prog == "fanout" ? 3 + int(r.below(3)) : 2 + int(r.below(2));
     int width = prog == "fanout" ? 2 + int(r.below(3)) : 2;
     // root tasks are submitted from this (non-pika) thread and from extra OS threads
     std::vector<std::thread> ext;
     int next = 1 + int(r.below(3));
+    long meet_n = 0;
+    if (meet)
+    {
+        // size = tasks per worker queue (above the soft limit of 1000); all submitted from this OS thread
+        meet_n = long(size) * g_workers;
+        auto l = std::make_shared<pika::latch>(meet_n);
+        for (long i = 0; i < meet_n; ++i)
+        {
+            long id = new_task_id();
+            ex::execute(ex::thread_pool_scheduler{}, [=] { meet_task(id, l); });
+        }
+        next = 0;
+    }
     for (int e = 0; e < next; ++e)
     {
         std::uint64_t es = r.next();
+        if (prog == "zoo")
+        {
+            ext.emplace_back([=] {
+                rng rr{es};
+                for (int i = 0; i < roots; ++i)
+                {
+                    long id = new_task_id();
+                    std::uint64_t rs = rr.next();
+                    int rounds = 2 + int(rr.below(3));
+                    auto s = ex::with_priority(ex::thread_pool_scheduler{}, zoo_prios[rr.below(5)]);
+                    if (rr.below(2)) ex::execute(s, [=] { zoo_root(id, rs, rounds); });
+                    else ex::start_detached(ex::schedule(s) | ex::then([=] { zoo_root(id, rs, rounds); }));
+                }
+            });
+            continue;
+        }
         ext.emplace_back([=] {
             rng rr{es};
             for (int i = 0; i < roots; ++i) spawn(rr.next(), 0, maxdepth, width);
@@ -287,6 +559,44 @@ int main(int argc, char** argv)
         try { ql = tm.get_queue_length(false); } catch (...) { ql = tm.get_thread_count(st::pending); }
         long busy = tm.get_thread_count(st::active) + tm.get_thread_count(st::staged) + ql;
         std::size_t logsz = e2::g_log->size();
+        if (meet)
+        {
+            // staged tasks that are never converted must count as a hang, not as work in progress:
+            // nothing active, every pending queue empty, log and counters unchanged, and every
+            // worker has gone round its scheduling loop at least 2000 times since the last change
+            static long base_iter[64];
+            static bool have_base = false;
+            // (get_queue_length counts staged descriptions too, so pending thread objects are counted instead)
+            long nobusy = tm.get_thread_count(st::active) + tm.get_thread_count(st::pending);
+            if (nobusy == 0 && logsz == last_log && d == last_done)
+            {
+                if (!have_base)
+                {
+                    for (int w = 0; w < g_workers && w < 64; ++w) base_iter[w] = g_loop_iter[w].load();
+                    have_base = true;
+                }
+                bool all = true;
+                for (int w = 0; w < g_workers && w < 64; ++w) all = all && g_loop_iter[w].load() - base_iter[w] >= 2000;
+                if (all && ++quiet >= 50 && g_done.load() != g_total.load())
+                {
+                    long stg = tm.get_thread_count(st::staged);
+                    if (stg > 0)
+                        monitor("meet: " + std::to_string(stg) + " staged tasks are never converted although every worker is idle (" +
+                            std::to_string(g_meet_in.load()) + " of " + std::to_string(meet_n) + " tasks arrived)");
+                    hang = true;
+                    break;
+                }
+                std::this_thread::sleep_for(std::chrono::milliseconds(20));
+            }
+            else
+            {
+                quiet = 0;
+                have_base = false;
+            }
+            last_log = logsz;
+            last_done = d;
+            continue;
+        }
         if (busy == 0 && logsz == last_log && d == last_done)
         {
             if (++quiet >= 150 && g_done.load() != g_total.load())
@@ -323,6 +633,10 @@ int main(int argc, char** argv)
         auto& t = (*g_tasks)[i];
         if (!hang && t.entered.load() != 1)
             monitor("task " + std::to_string(i) + " entered " + std::to_string(t.entered.load()) + " times");
+        if (hang && meet && t.entered.load() == 0)
+        {
+            monitor("task " + std::to_string(i) + " was never started although the runtime is quiescent");
+        }
         if ((hang || overflow) && t.finished.load() == 0 && t.entered.load() > 0)
         {
             monitor("task " + std::to_string(i) + " never finished although the runtime is quiescent (entered " +
